@@ -5,6 +5,7 @@
    pointer arithmetic regenerated into gen/Gen_locks.v; reference: record map + high-water mark (sstep). *)
 From Coq Require Import ZArith List Bool Lia.
 From PCB Require Import lib.Result lib.PyInt gen.Gen_locks model.Locks model.RandomFile proofs.RandomFile_proofs.
+From PCB Require Import model.SharedFile model.FieldVars proofs.Locks_proofs proofs.SharedFile_proofs proofs.FieldVars_proofs.
 Import ListNotations.
 Open Scope Z_scope.
 
@@ -67,7 +68,7 @@ Print Assumptions C25_put_any_file.
 
 Theorem C25_get_any_file : forall pos f buf,
   let L := rf_reclen f in let k := target pos (rf_recpos f) in
-  0 <= L -> 1 <= k -> L <= zlen buf -> pos_ok f ->
+  0 <= L -> 1 <= k -> L <= zlen buf ->
   let '(f', buf') := rf_get pos f buf in
   s_bytes (rf_stream f') = s_bytes (rf_stream f) /\ rf_recpos f' = k /\ rf_reclen f' = L /\ pos_ok f' /\
   buf' = view (s_bytes (rf_stream f)) L k ++ zdrop L buf.
@@ -115,6 +116,109 @@ Print Assumptions C25_lof_loc_functions_exact.
 Theorem C25_loc_function_rounds_above_2_24 : single_trunc 16777217 = 16777216.
 Proof. reflexivity. Qed.
 Print Assumptions C25_loc_function_rounds_above_2_24.
+
+(* ================= several file numbers on ONE random file (model/SharedFile.v) =================
+   The bytes belong to the file name; every number has its own stream position, record pointer, record length
+   and FIELD buffer.  Host premise (defect D25a, fixes/D25a.patch): put flushes, get seeks to its record. *)
+Theorem C25_host_premises : rf_put_flushes = true /\ forall r L fpos, rf_get_seek r L fpos = r * L.
+Proof. split; [exact gen_put_flushes | exact gen_get_seek]. Qed.
+Print Assumptions C25_host_premises.
+
+(* an accepted PUT through number n (its own LEN L, its own pointer) is one write of L bytes at (k-1)*L into
+   the shared file; no other file changes *)
+Theorem C25_shared_put : forall cs n pos st' this h p,
+  getput_stmt true (c_st cs) n pos = (st', Ok tt) ->
+  find n (st_files (c_st cs)) = Some this -> aget n (c_h cs) = Some h -> check_pos pos = Ok p ->
+  let L := h_reclen h in let k := target p (lp_recpos this) in let nm := lp_name this in
+  1 <= L -> 1 <= k -> L <= zlen (buf_of n cs) ->
+  let cs' := fst (cstep cs (CPut n pos)) in
+  bytes_of nm cs' = s_bytes (s_write (ztake L (buf_of n cs)) (mkStream (bytes_of nm cs) ((k - 1) * L))) /\
+  (forall nm', nm' <> nm -> bytes_of nm' cs' = bytes_of nm' cs) /\
+  c_bufs cs' = c_bufs cs /\ c_st cs' = st' /\ snd (cstep cs (CPut n pos)) = Ok [].
+Proof. exact shared_put. Qed.
+Print Assumptions C25_shared_put.
+
+(* an accepted GET through ANY number returns the record view of the shared bytes in that number's own LEN *)
+Theorem C25_shared_get : forall cs n pos st' this h p,
+  getput_stmt false (c_st cs) n pos = (st', Ok tt) ->
+  find n (st_files (c_st cs)) = Some this -> aget n (c_h cs) = Some h -> check_pos pos = Ok p ->
+  let L := h_reclen h in let k := target p (lp_recpos this) in let nm := lp_name this in
+  0 <= L -> 1 <= k -> L <= zlen (buf_of n cs) ->
+  snd (cstep cs (CGet n pos)) = Ok (view (bytes_of nm cs) L k) /\
+  c_bytes (fst (cstep cs (CGet n pos))) = c_bytes cs.
+Proof. exact shared_get. Qed.
+Print Assumptions C25_shared_get.
+
+(* what a GET through #2 sees after a PUT through #1 (same LEN, same record): the record just written *)
+Theorem C25_put_visible_through_other_number : forall cs n1 pos1 st1 this1 h1 k n2 pos2 st2 this2 h2,
+  getput_stmt true (c_st cs) n1 pos1 = (st1, Ok tt) ->
+  find n1 (st_files (c_st cs)) = Some this1 -> aget n1 (c_h cs) = Some h1 -> check_pos pos1 = Ok (Some k) ->
+  1 <= h_reclen h1 <= zlen (buf_of n1 cs) -> 1 <= k ->
+  let cs1 := fst (cstep cs (CPut n1 pos1)) in
+  getput_stmt false (c_st cs1) n2 pos2 = (st2, Ok tt) ->
+  find n2 (st_files (c_st cs1)) = Some this2 -> aget n2 (c_h cs1) = Some h2 -> check_pos pos2 = Ok (Some k) ->
+  lp_name this2 = lp_name this1 -> h_reclen h2 = h_reclen h1 -> h_reclen h2 <= zlen (buf_of n2 cs1) ->
+  snd (cstep cs1 (CGet n2 pos2)) = Ok (ztake (h_reclen h1) (buf_of n1 cs)).
+Proof. exact put_visible_through_other_number. Qed.
+Print Assumptions C25_put_visible_through_other_number.
+
+(* ================= FIELD semantics (model/FieldVars.v) =================
+   invariant over ALL histories of FIELD (several statements, overlapping definitions, errors), LSET, RSET,
+   MID$=, LET, PUT, GET: the buffer keeps its 128 bytes and every attached variable lies inside it; the value
+   of an attached variable IS the slice of the buffer (value_in), so the relation buffer <-> variables holds
+   by construction of `value` and is tied to the interpreter by correspondence *)
+Theorem C25_field_invariant : forall L ops, 1 <= L <= 128 -> Forall fop_ok ops ->
+  let st := frun (fv_init L) ops in
+  zlen (i_buf (fv_i st)) = 128 /\ rf_reclen (i_file (fv_i st)) = L /\
+  forall v off w, aget v (fv_vars st) = Some (VField off w) ->
+    0 <= off /\ 0 <= w /\ off + w <= 128 /\ value v st = ztake w (zdrop off (i_buf (fv_i st))) /\ zlen (value v st) = w.
+Proof.
+  intros L ops HL Hok st. destruct (wf_all_histories L ops HL Hok) as [Hb [Hr Hv]]. fold st in Hb, Hr, Hv.
+  unfold field_size in *. split; [exact Hb|]. split; [exact Hr|]. intros v off w Hg.
+  destruct (Hv v off w Hg) as [A [B C]]. split; [exact A|]. split; [exact B|]. split; [exact C|].
+  assert (Hval : value v st = ztake w (zdrop off (i_buf (fv_i st)))) by (unfold value, var_of; rewrite Hg; reflexivity).
+  split; [exact Hval|]. rewrite Hval. apply (value_len (i_buf (fv_i st)) off w); lia.
+Qed.
+Print Assumptions C25_field_invariant.
+
+(* "records are what the fields hold": an accepted FIELD statement with distinct variables attaches them one
+   after the other, and the values of fields laid out one after the other concatenate to the slice of the
+   buffer they cover - with widths adding up to LEN that is exactly what PUT writes and what GET delivers *)
+Theorem C25_field_layout : forall defs off vars vars', attach off defs vars = (vars', Ok tt) ->
+  NoDup (map snd defs) -> forall i, (i < length defs)%nat ->
+  aget (snd (nth i defs (0, 0))) vars' =
+    Some (VField (fst (nth i (layout off (map fst defs)) (0, 0))) (fst (nth i defs (0, 0)))).
+Proof. exact attach_layout. Qed.
+Print Assumptions C25_field_layout.
+
+Theorem C25_record_is_concatenation_of_fields : forall buf ws off, 0 <= off -> Forall (fun w => 0 <= w) ws ->
+  concat (map (fun ow => value_in buf (VField (fst ow) (snd ow))) (layout off ws))
+  = ztake (fold_right Z.add 0 ws) (zdrop off buf).
+Proof. intros buf ws off. exact (fields_concat buf ws off). Qed.
+Print Assumptions C25_record_is_concatenation_of_fields.
+
+(* LSET / RSET through an attached variable: it then reads the justified string; the buffer changes exactly on
+   [off, off+w) - so an overlapping variable changes exactly on the overlap, a disjoint one not at all *)
+Theorem C25_lset_attached : forall st v off w rj d,
+  var_of v st = VField off w -> 0 <= off -> 0 <= w -> off + w <= zlen (i_buf (fv_i st)) ->
+  let st' := fst (fstep st (FLset v rj d)) in
+  i_buf (fv_i st') = buf_set off w rj d (i_buf (fv_i st)) /\
+  value v st' = justify rj w d /\
+  zlen (i_buf (fv_i st')) = zlen (i_buf (fv_i st)) /\
+  fv_vars st' = fv_vars st /\
+  (forall i, 0 <= i -> znth i (i_buf (fv_i st')) =
+     if (off <=? i) && (i <? off + w) then znth (i - off) (justify rj w d) else znth i (i_buf (fv_i st))).
+Proof. exact lset_attached. Qed.
+Print Assumptions C25_lset_attached.
+
+(* LET detaches: the variable holds its own string; LSET / RSET / MID$= on it never reach the buffer again *)
+Theorem C25_let_detaches : forall st v d,
+  let st' := fst (fstep st (FLet v d)) in
+  value v st' = d /\ fv_i st' = fv_i st /\
+  (forall rj d', fv_i (fst (fstep st' (FLset v rj d'))) = fv_i st) /\
+  (forall start num d', fv_i (fst (fstep st' (FMid v start num d'))) = fv_i st).
+Proof. exact let_detaches. Qed.
+Print Assumptions C25_let_detaches.
 
 (* ---- the regenerated pointer arithmetic is the byte arithmetic the proofs need (false before fixes/D7.patch:
    there the gap test was `recpos > lof` and the padding `(recpos - lof) * reclen`) *)
